@@ -144,6 +144,16 @@ def correspondence(ctx):
 
 
 # ------------------------------------------------------------------ bootstrap oracle
+class _Big(Exception):
+    pass
+
+
+def _low_digits(a, axis=-1):
+    """a statistic that looks at the last three digits of integer data"""
+    import numpy as np
+    return np.mean(np.asarray(a) % 1000, axis=axis)
+
+
 def check_bootstrap(case):
     import numpy as np
     import scipy.stats as st
@@ -152,11 +162,15 @@ def check_bootstrap(case):
     n0, n1 = case["sizes"]
     data = {"variant": [0] * n0 + [1] * n1, "x": list(rng.lognormal(size=n0 + n1)), "y": list(rng.normal(3, 1, size=n0 + n1)),
             "z": list(rng.poisson(4, size=n0 + n1).astype(float) + 1)}
+    if case.get("bigint"):      # 64-bit integers above 2**53 (ids, amounts in the smallest unit): their low digits must survive
+        data["z"] = [2**60 + int(k) for k in rng.integers(0, 10**6, size=n0 + n1)]
     kw = dict(alternative=case["alt"], confidence_level=case["cl"], n_resamples=case["n_resamples"], method=case["method"],
               random_state=case["seed"])
     fails = []
     cols = case["cols"]
     stat = np.mean if case["stat"] == "mean" else np.median
+    if case.get("bigint"):
+        stat = _low_digits
     try:
         tab = B.make_table(case["backend"], data)
         if case["kind"] == "quantile":
@@ -168,6 +182,8 @@ def check_bootstrap(case):
             m = tt.Bootstrap(sel, stat, **kw)
             f = lambda a, axis: stat(a, axis=axis)
         res = m.analyze(tab, 0, 1, "variant")
+        if case.get("big"):
+            raise _Big()
         # inside an experiment, next to other metrics
         other = tt.Quantile("y", 0.5, n_resamples=10, random_state=1)
         exp = tt.Experiment(a=tt.Mean("y"), b=other, m=(tt.Quantile(cols[0], case["q"], **kw) if case["kind"] == "quantile"
@@ -180,6 +196,9 @@ def check_bootstrap(case):
         rev = list(reversed(cols))
         gran = {v: pa.table({c: [data[c][i] for i, x in enumerate(data["variant"]) if x == v] for c in rev}) for v in (0, 1)}
         from_dict = mk().analyze(gran, 0, 1)
+    except _Big:
+        exp = {"m": res}
+        alone = from_dict = res
     finally:
         B.cleanup()
 
@@ -284,6 +303,24 @@ def oracle(ctx, deep=False):
         for f in granular_reuse(seed)[:2]:
             ctx.violations.append({"what": "row-level metric sees stale rows of a frame modified in place", "detail": f,
                                    "input": {"granular_reuse": True, "seed": seed}})
+    special = [
+        # rows x resamples far above 2**25: the interval still equals scipy.stats.bootstrap on the same arrays and seed
+        {"kind": "bootstrap", "backend": "pandas", "alt": "two-sided", "cl": 0.9, "n_resamples": 1000, "method": "percentile",
+         "seed": ctx.rng.randint(0, 10**6), "data_seed": ctx.rng.randint(0, 10**6), "q": 0.5, "sizes": [30000, 30000],
+         "stat": "mean", "cols": ["x"], "big": True},
+        # integers above 2**53 reach the statistic unchanged
+        {"kind": "bootstrap", "backend": ctx.rng.choice(["pandas", "polars", "pyarrow", "ibis-sqlite"]), "alt": "two-sided", "cl": 0.9,
+         "n_resamples": 30, "method": "percentile", "seed": ctx.rng.randint(0, 10**6), "data_seed": ctx.rng.randint(0, 10**6),
+         "q": 0.5, "sizes": [12, 15], "stat": "mean", "cols": ["z"], "bigint": True}]
+    for case in special:
+        try:
+            fails = check_bootstrap(case)
+        except Exception as e:  # noqa: BLE001
+            fails = [f"raised {type(e).__name__}: {e}"]
+        ctx.evaluations += 1
+        ctx.count("oracle:" + ("large-bootstrap" if case.get("big") else "big-integers"))
+        for f in fails:
+            ctx.violations.append({"what": f.split(" = ")[0][:60], "detail": f[:500], "input": case})
     for i in range(ctx.n(40, 1000) * (2 if deep else 1)):
         kind = ctx.rng.choice(["quantile", "bootstrap", "bootstrap"])
         case = {"kind": kind, "backend": ctx.rng.choice(["pandas", "polars", "polars-lazy", "pyarrow", "ibis-sqlite"]),
